@@ -326,7 +326,11 @@ func (f *Func) failureReturnsError(call *ast.CallExpr) bool {
 	for _, ev := range g.condVertices() {
 		cond := g.node[ev-1].(ast.Expr)
 		if !g.Dominates(cv, ev-1) {
-			continue
+			// the call may sit in a branch (`if err == nil { err = step() }`) that rejoins before the test: what counts is
+			// that every path from the call to an exit passes the test
+			if through, _ := g.MustPass(cv, g.Exits, func(v int) bool { return v == ev-1 }); !through {
+				continue
+			}
 		}
 		for k := 0; k < 2; k++ {
 			// edge k is where *every* failure goes exactly when the other edge implies err == nil: `if err != nil {…}` and
